@@ -346,10 +346,11 @@ def identity(I, w, ci, args):
 
 def str_eq(I, w, ci, args):
     a, b = args[0], args[1]
-    if a[0] == 'ref':
-        a = I.read(w, a[1])
-    if b[0] == 'ref':
-        b = I.read(w, b[1])
+    for _ in range(4):
+        if a[0] == 'ref':
+            a = I.read(w, a[1])
+        if b[0] == 'ref':
+            b = I.read(w, b[1])
     if a[0] == 'cstr' and b[0] == 'cstr':
         return [(w, TRUE if a[1] == b[1] else FALSE)]
     si, sj = int_singleton(a) if is_int(a) else None, int_singleton(b) if is_int(b) else None
